@@ -23,6 +23,7 @@ FINDERS = {
     "C09": [("session_witness", ["c09"])],
     "C10": [("session_witness", ["c10"])],
     "C17": [("session_witness", ["c17"])],
+    "C02": [("session_witness", ["c02"])],
 }
 
 def build(repo, scratch, bins):
